@@ -28,6 +28,8 @@ func checkC07(c *Check) {
 	ruleAllocSites(c, p, "R07.4")
 	ruleGetTotal(c, p, "R07.5")
 	ruleReaderShutdown(c, p, "R07.6")
+	ruleHeaderGate(c, p, "R07.11")
+	c.RuleDoc["R07.11"] = "= R19.2: a descriptor is accepted only behind the check-byte comparison and the block-size validity test (an undefined block-size code would reach the buffer pools, whose lookup panics)"
 	ruleStreamsThroughInterface(c, p, "R07.10")
 	c.RuleDoc["R07.10"] = "user streams are used only through the interface they were passed as (no type assertion to optional methods)"
 	ruleInputSizedExternalCalls(c, p, "R07.9")
